@@ -39,4 +39,7 @@ def jobs(tier):
             add('index_args_job', 'ndarray-index-arguments[%s]' % list(lv), lengths=lv)
         if sum(lv) <= (5 if q else 7):
             add('mask_job', 'mask[%s]' % list(lv), lengths=lv, form='nested')
+    # arrays WITH EMPTY ROWS (first, interior, several in a row): masks and ra.where must still address the later rows
+    for lv in ((2, 0, 1), (0, 2, 1), (1, 0, 0, 2)) + (() if q else ((2, 0, 0), (0, 0, 3), (1, 0, 2, 0, 1))):
+        add('mask_job', 'mask[%s,flat]' % list(lv), lengths=lv, form='flat')
     return J
